@@ -674,8 +674,13 @@ Verdict checkEntry(const json::Value &v, const std::string &b, const std::string
 
 Verdict oracleC14(decoder_t *d, int frate, const Obs &o, double start, int level, bool final, Ctx &ctx) {
   const char *when = final ? "final" : "partial";
+  // (the JSON call may recompute the alignment and free an earlier object: take the text first,
+  //  then ask for the alignment to compare with)
+  const char *js0 = decoder_result_json(d, start, level);
+  std::string jsCopy = js0 ? js0 : "";
+  size_t alloc0 = js0 ? __sanitizer_get_allocated_size(d->json_result) : 0;
   alignment_t *al = level > 0 ? decoder_alignment(d) : NULL;
-  const char *js = decoder_result_json(d, start, level);
+  const char *js = js0 ? jsCopy.c_str() : NULL;
   if (level > 0 && al == NULL) {
     PBT_CHECK(js == NULL, "json-without-alignment", when << ": level " << level << " JSON returned although decoder_alignment is NULL");
     ctx.label("json:NULL(no-alignment)");
@@ -683,7 +688,7 @@ Verdict oracleC14(decoder_t *d, int frate, const Obs &o, double start, int level
   }
   PBT_CHECK(js != NULL, "json-null", when << ": decoder_result_json returned NULL (level " << level << ")");
   std::string text(js);
-  size_t alloc = __sanitizer_get_allocated_size(d->json_result);
+  size_t alloc = alloc0;
   PBT_CHECK(text.size() + 1 == alloc, "json-buffer-length", when << ": JSON is " << text.size() << " bytes + NUL in a buffer of " << alloc);
   PBT_CHECK(!text.empty() && text.back() == '\n', "json-newline", when << ": JSON line does not end in a newline");
   PBT_CHECK(text.find('\n') == text.size() - 1, "json-newline", when << ": JSON contains a newline before its end: " << text);
